@@ -375,6 +375,7 @@ prime_field!(f_gfsecp256k1, GFsecp256k1, 4,
     extra: |x, a, rg, put| {
         "mul3" => { let v = x(0, rg)?; put(v.mul3(), rg) },
         "mul21" => { let v = x(0, rg)?; put(v.mul21(), rg) },
+        "set_mul21" => { let mut v = x(0, rg)?; v.set_mul21(); put(v, rg) },
         "mul_u16" => { let v = x(0, rg)?; let n = u32a(arg(a, 1)?)?; put(v.mul_u16(n as u16), rg) },
         "enc32" => { let v = x(0, rg)?; Ok(ohex(&v.encode32())) },
         "decode32" => {
@@ -389,10 +390,11 @@ prime_field!(f_gfsecp256k1, GFsecp256k1, 4,
 prime_field!(f_gfsecp256k1, GFsecp256k1, 4,
     le: |l| lim4!(GFsecp256k1, from_w64le, l), cle: lim4!(GFsecp256k1, w64le, l),
     be: lim4be!(GFsecp256k1, from_w64be, l), cbe: lim4be!(GFsecp256k1, w64be, l),
-    enc: |e| e.encode32(),
+    enc: |e| e.encode(),
     extra: |x, a, rg, put| {
         "mul3" => { let v = x(0, rg)?; put(v.mul3(), rg) },
         "mul21" => { let v = x(0, rg)?; put(v.mul21(), rg) },
+        "set_mul21" => { let mut v = x(0, rg)?; v.set_mul21(); put(v, rg) },
         "enc32" => { let v = x(0, rg)?; Ok(ohex(&v.encode32())) },
         "decode32" => {
             let b = bytes(arg(a, 0)?)?;
